@@ -107,4 +107,16 @@ PROPS = {
         "assumptions": ["no whitespace-only lines, indented comments or CR line endings; files are never replaced by rename (the property does not define these)",
                         "net.ParseMAC / net.ParseIP define the accepted spellings, as the property says", "inotify instances are never released by the plugin: at most 35 autorefresh instances per process; a failing watcher creation is counted as skipped"],
     },
+    "C18": {
+        "engine": "conf",
+        "tests": [
+            {"name": "TestC18", "quick": {"checks": 6000, "shards": 2}, "thorough": {"checks": 40000, "shards": 12}},
+            {"name": "TestC18Mutated", "quick": {"checks": 4000, "shards": 1}, "thorough": {"checks": 40000, "shards": 4}},
+        ],
+        "fuzz": [{"name": "FuzzConfigLoad", "seconds": 120}],
+        "rule": "TestC18: rapid draws a structured configuration (server4/server6 present or not; listen absent / scalar / list of 1..4 items / `interface` alias / both; items built from [address][%zone][:port] with bracketed IPv6 and optionally bracketed IPv4, v4-mapped, wrong family, garbage address, empty/garbage port, multicast with and without zone; plugins as a list of 1..5 one-key maps with 0..4 arguments from a vocabulary of IPs, CIDRs, durations, paths, URLs, MAC-bearing values, or missing / null / empty / scalar / map, or an item with two keys) and renders it to YAML in block or flow style with varying quoting, indentation, key order, comments and separators; config.Load's result is compared with the structure (plugin names, strings.Fields arguments, addresses with wildcard/default port/zone, multicast expansion from the harness's own scan of net.Interfaces). TestC18Mutated: 1..4 byte mutations (truncate, bit flip, insert, delete, duplicate line) of a valid rendering must make Load return, never panic. Thorough adds native fuzzing of arbitrary text. Non-trivial: accepted configuration with >= 2 plugins or >= 1 explicit listen item, or a configuration rejected for a listed reason; mutated text that differs from the original. Distinct: FNV-64 of the case JSON.",
+        "assumptions": ["plugin names are lower-case identifiers (viper folds key case); argument tokens are strings or canonical decimal integers for YAML (no floats, booleans, dates, ~)",
+                        "not asserted: port ranges (99999, -5 are accepted by the code), empty listen lists/values, null protocol sections, unbracketed IPv6 literals",
+                        "multicast expansion is compared with the interfaces this sandbox has at run time"],
+    },
 }
